@@ -237,6 +237,44 @@ def lean_batch(ops, timeout=400, jobs=16):
     return out
 
 
+# ----------------------------------------------------------------------------- Tarjan (scc_decomposition) vs its proved model
+def tarjan_observe(G):
+    """(worker side) The iteration orders `scc_decomposition(G.incoming.__getitem__, G.N)` is going to see, read off the
+    `WeightedGraph` object `G` itself: `list(G.N)` and `list(G.incoming[v])` per node.  Call it right BEFORE the first access
+    to `G.blocks` (/`buckets`/`Blocks`), in the same process: an unmodified set iterates in the same order every time.  Nothing
+    is mutated (the defaultdict `incoming` is read with `items()`, no key is created)."""
+    return {"roots": [enc_sym(v) for v in G.N],
+            "succ": [[enc_sym(v), [enc_sym(w) for w in ws]] for v, ws in list(G.incoming.items())]}
+
+
+def tarjan_blocks(G):
+    """(worker side) `G.blocks` in emission order, each block in its frozenset's order"""
+    return [[enc_sym(q) for q in blk] for blk in G.blocks]
+
+
+def tarjan_op(obs):
+    """driver operation running the model `tarjan` (Model/Tarjan.lean; `tarjan_correct` holds for every order) on the observed orders"""
+    return {"op": "tarjan", "roots": obs["roots"], "succ": obs["succ"]}
+
+
+def tarjan_same(model, blocks):
+    """the model's components vs the real `blocks`: the SAME components in the SAME order (a component is a frozenset)"""
+    if "error" in model:
+        raise DriverError(model["error"])
+    if not model.get("ok") or not model.get("stack_empty"):
+        return False, f"the model's run failed (ok={model.get('ok')}, stack_empty={model.get('stack_empty')})"
+    mb = [sorted(map(symkey, b)) for b in model["blocks"]]
+    ib = [sorted(map(symkey, b)) for b in blocks]
+    if any(len(set(b)) != len(b) for b in mb):
+        return False, "the model emitted a node twice in one component"
+    if mb == ib:
+        return True, ""
+    if sorted(mb) == sorted(ib):
+        k = next(i for i, (a, b) in enumerate(zip(mb, ib)) if a != b)
+        return False, f"same components, different emission order (first difference at position {k}): model {model['blocks']} impl {blocks}"
+    return False, f"components differ: model {model['blocks']} impl {blocks}"
+
+
 # ----------------------------------------------------------------------------- build + audit
 def _lean_sources_hash():
     h = hashlib.sha256()
